@@ -35,6 +35,14 @@ def generate(ctx):
             x = util.small_rationals(rng, (K,)).tolist(); v = util.small_rationals(rng, (K,)).tolist()
             w = util.small_rationals(rng, (max(K - 1, 0),)).tolist(); dw = util.small_rationals(rng, (max(K - 1, 0),)).tolist()
             yield 'jvp_sigma', {'b': b, 'x': x, 'v': v, 'w': w, 'dw': dw}
+    # level sets that are nearly equidistant, end only close to 0 / 1, or have extremely thin layers (dual-number model, exact)
+    special = [[round(k / 7, 7) for k in range(8)], [5e-9, 0.25, 0.625, 1.000005], [0.0, 2.0 ** -30, 0.5, 0.5 + 2.0 ** -25, 1.0],
+               [0.0, 0.3125, 0.999998]]
+    for b in (special if not quick else special[:3]):
+        K = len(b) - 1
+        x = util.small_rationals(rng, (K,)).tolist(); v = util.small_rationals(rng, (K,)).tolist()
+        w = util.small_rationals(rng, (K - 1,)).tolist(); dw = util.small_rationals(rng, (K - 1,)).tolist()
+        yield 'jvp_sigma', {'b': b, 'x': x, 'v': v, 'w': w, 'dw': dw}
     for K in ([1, 2, 3, 5] if quick else [1, 2, 3, 4, 6, 8]):
         b = util.uneven_boundaries(rng, K).tolist()
         arr = lambda: util.small_rationals(rng, (K,)).tolist()
